@@ -114,12 +114,30 @@ StrFn2(f, a0, b0, patternIsLiteral) ==
          [] f = "concat"     -> SV(a[2] \o b[2])
 
 \* ------------------------------------------------------------------ literals
-FloatLits == [ x \in {"2.0", "0.5", "1.5", "2.5", "-0.5"} |->
-                 CASE x = "2.0" -> QV(2, 1) [] x = "0.5" -> QV(1, 2) [] x = "1.5" -> QV(3, 2) [] x = "2.5" -> QV(5, 2)
-                   [] x = "-0.5" -> QV(-1, 2) ]
+\* decimal literals: the exact rational value of the literal's text  [-]digits[.digits][e[+-]digits]
+RECURSIVE Pow10(_)
+Pow10(k) == IF k = 0 THEN 1 ELSE 10 * Pow10(k - 1)
+RECURSIVE DecDigits(_, _, _, _)
+DecDigits(x, i, j, acc) == IF i > j THEN acc ELSE DecDigits(x, i + 1, j, IF IsDigit(x[i]) THEN acc * 10 + (x[i] - 48) ELSE acc)
+FirstAt(x, cs, from) == IF \E i \in from..Len(x) : x[i] \in cs THEN CHOOSE i \in from..Len(x) : x[i] \in cs /\ \A j \in from..(i - 1) : x[j] \notin cs
+                        ELSE Len(x) + 1
+DecimalOf(x) ==
+  LET neg  == x[1] = 45
+      st   == IF neg THEN 2 ELSE 1
+      ePos == FirstAt(x, {69, 101}, st)
+      dPos == FirstAt(SubSeq(x, 1, ePos - 1), {46}, st)
+      man  == DecDigits(x, st, ePos - 1, 0)
+      frac == IF dPos < ePos THEN ePos - dPos - 1 ELSE 0
+      eNeg == ePos < Len(x) /\ x[ePos + 1] = 45
+      eAbs == IF ePos > Len(x) THEN 0 ELSE DecDigits(x, ePos + 1, Len(x), 0)
+      exp  == (IF eNeg THEN -eAbs ELSE eAbs) - frac
+      sgn  == IF neg THEN -1 ELSE 1
+  IN IF exp >= 0 THEN NormQ(sgn * man * Pow10(exp), 1) ELSE NormQ(sgn * man, Pow10(-exp))
+ASSUME DecimalOf(StrCps("2.0")) = QV(2, 1) /\ DecimalOf(StrCps("-0.5")) = QV(-1, 2) /\ DecimalOf(StrCps("2.5e-1")) = QV(1, 4)
+ASSUME DecimalOf(StrCps("1e-7")) = QV(1, 10000000) /\ DecimalOf(StrCps("1E3")) = QV(1000, 1) /\ DecimalOf(StrCps("1.5e+1")) = QV(15, 1)
 LitVal(k, v) == CASE k = "Null" -> NULL
                   [] k = "Integer" -> IV(v)
-                  [] k = "Float" -> FloatLits[v]
+                  [] k = "Float" -> DecimalOf(StrCps(v))
                   [] k = "String" -> SV(v)
                   [] k = "Boolean" -> BV(v = "true")
                   \* temporal literals: the value is computed from the literal's text (module Temporal)
